@@ -216,8 +216,10 @@ class Capture:
         import time as _t
         cap.deadline = _t.time() + case_seconds(cap.factor)
         budget = RUN_TAPE_BUDGET * cap.factor
-        def _mark(): cap.calls = RUN_TAPE_BUDGET * RETRY_FACTOR * 2
-        watch_begin(case_seconds(cap.factor) * 2 + 3, _mark)
+        def _mark():
+            cap.calls = RUN_TAPE_BUDGET * RETRY_FACTOR * 2
+            if cap.factor > 1: RUNAWAYS[0] = RUNAWAY_LIMIT        # even the retry sat in one instruction for seconds: no further retries
+        watch_begin(case_seconds(cap.factor) + (4 if RUNAWAYS[0] < RUNAWAY_LIMIT else 1.5), _mark)
         def run_tape(tape, stack, cache, additional_flags={}):
             if cap.depth == 0:
                 cap.tops.append((tape, stack, cache))
